@@ -30,7 +30,7 @@ EXPLANATION = (
     'ChessParseError; (5) all pawn-direction square offsets (+/-8, +/-16) in the position, text and UCI code are colour-decided and '
     'occur in mirrored white/black pairs.')
 UNDECIDED = ('uniqueness of short move forms, round-trip equality of values, robustness against every byte string (needs execution); '
-             'PGN tree round trip.')
+             'PGN tree round trip beyond the scanner look-ahead discipline of clause 6.')
 ASSUMPTIONS = ['char is an 8-bit type; the piece enumerators are those of Piece::Type']
 
 
@@ -46,6 +46,7 @@ def run(fb, rep, tier):
     c3_external_ints(fb, rep)
     c4_exceptions(fb, rep)
     c5_pawn_offsets(fb, rep)
+    c6_scanner_lookahead(fb, rep)
 
 
 PIECES = ['WKING', 'WQUEEN', 'WROOK', 'WBISHOP', 'WKNIGHT', 'WPAWN', 'BKING', 'BQUEEN', 'BROOK', 'BBISHOP', 'BKNIGHT', 'BPAWN']
@@ -452,3 +453,98 @@ def c5_pawn_offsets(fb, rep):
             rep.ob(clause, 'K10 colour coherence', '%s: `%s %s %d` is decided by the mover\'s colour and has its mirrored sibling' % (fn.sname, base, '+' if off > 0 else '-', abs(off)),
                    coloured and mirrored, R.site(fn, e), 'colour guard: %s, mirrored sibling in the function: %s' % (coloured, mirrored), fn.sname)
     rep.floor(clause, 'pawn-direction square offsets', n, 16)
+
+
+# --------------------------------------------------------------------------- .6 scanner look-ahead
+
+def c6_scanner_lookahead(fb, rep):
+    """K3 typestate of the character last read by the PGN scanner: every character obtained from
+    getTokenChar() is, on every path, either made part of the token (appended), recognised as a
+    delimiter / single-character token (compared equal to a character constant), skipped as white
+    space, or handed back with returnTokenChar() - before the next character is read and before
+    the token is returned.  A character that merely *ends* a token by not belonging to it (failed
+    class test) and is neither handed back nor used is lost, and with it the structure of the game."""
+    from ..flow import Flow
+    clause = 'C17.6'
+    f = fb.find1('PgnScanner::nextToken')
+    if rep.need(clause, f, 'PgnScanner::nextToken') is None:
+        return
+    READ, BACK = 'PgnScanner::getTokenChar', 'PgnScanner::returnTokenChar'
+    reads = [(b, i, e) for b, i, e in f.events() if e.get('k') == 'call' and cname(e) == READ]
+    backs = [(b, i, e) for b, i, e in f.events() if e.get('k') == 'call' and cname(e) == BACK]
+    rep.floor(clause, 'character reads in the PGN scanner', len(reads), 6)
+    rep.floor(clause, 'push-back sites in the PGN scanner', len(backs), 2)
+    # the variable(s) the reads are stored in
+    cvars = set()
+    for b, i, e in f.events():
+        if e.get('k') == 'decl':
+            for v in e.get('vars', []):
+                if any(n.get('k') == 'call' and cname(n) == READ for n in walk(v.get('init') or {})):
+                    cvars.add(v['id'])
+        elif e.get('k') == 'asg' and isinstance(e.get('l'), dict) and e['l'].get('k') == 'var' and any(n.get('k') == 'call' and cname(n) == READ for n in walk(e.get('r') or {})):
+            cvars.add(e['l'].get('id'))
+    viol = {}
+
+    def is_c(t):
+        t = _strip(t)
+        if isinstance(t, dict) and t.get('k') == 'asg':
+            t = _strip(t.get('l'))
+        return isinstance(t, dict) and t.get('k') == 'var' and t.get('id') in cvars
+
+    def mentions_c(t):
+        return any(n.get('k') == 'var' and n.get('id') in cvars for n in walk(t))
+
+    def transfer(e, st, pos):
+        k = e.get('k')
+        reads_now = (k == 'decl' and any(v['id'] in cvars and v.get('init') is not None and any(n.get('k') == 'call' and cname(n) == READ for n in walk(v['init'])) for v in e.get('vars', []))) or \
+                    (k == 'asg' and is_c(e.get('l')) and any(n.get('k') == 'call' and cname(n) == READ for n in walk(e.get('r') or {})))
+        if reads_now:
+            if st == 'FRESH':
+                viol[pos] = ('the previous character is overwritten by the next read without having been used or handed back', e)
+            return ['FRESH']
+        if k == 'call':
+            n = cname(e)
+            if n == BACK and any(mentions_c(a) for a in e.get('args', [])):
+                return ['DONE']
+            if n.split('::')[-1] in ('operator+=', 'push_back', 'append') and any(mentions_c(a) for a in e.get('args', [])):
+                return ['DONE']
+        if k == 'asg' and e.get('op') == '+=' and mentions_c(e.get('r')):
+            return ['DONE']
+        if k == 'asg' and (show(e.get('l')) or '').endswith('.type') and 'END' in show(e.get('r')):
+            return ['DONE']         # end of input: nothing to hand back
+        if k == 'ret' and st == 'FRESH':
+            viol[pos] = ('the token is returned while the last character read was neither used nor handed back', e)
+        return [st]
+
+    def refine(atom, tv, st):
+        a = _strip(atom)
+        if isinstance(a, dict) and a.get('k') == 'bin' and a.get('op') in ('==', '!='):
+            l, r = a.get('l'), a.get('r')
+            for x, y in ((l, r), (r, l)):
+                if is_c(x) and isinstance(_strip(y), dict) and 'cv' in _strip(y):
+                    if (a['op'] == '==') == bool(tv):
+                        return ['DONE'] if st == 'FRESH' else [st]
+        if isinstance(a, dict) and a.get('k') == 'call' and cname(a).split('::')[-1] == 'isspace' and tv and any(mentions_c(x) for x in a.get('args', [])):
+            return ['DONE'] if st == 'FRESH' else [st]
+        return [st]
+    fl = Flow(f, transfer, refine).run({'NONE'})
+    if fl.overflow:
+        rep.broken(clause, 'configuration overflow')
+        return
+    first = sorted(viol.items())[0][1] if viol else None
+    rep.ob(clause, 'K3 typestate', 'PgnScanner::nextToken: every character read is used, recognised as a delimiter, skipped as white space or handed back before the next read / the return',
+           not viol, R.site(f, first[1]) if first else f.where,
+           '; '.join('line %s: %s' % (e.get('ln'), w) for _, (w, e) in sorted(viol.items())) if viol else '%d reads, %d push-back sites' % (len(reads), len(backs)), f.sname)
+    # the push-back buffer really is consulted first by the reader
+    g = fb.find1(READ)
+    h = fb.find1(BACK)
+    if rep.need(clause, g, READ) and rep.need(clause, h, BACK):
+        from ..effects import event_writes
+        wr = set()
+        for _, _, e in h.events():
+            may, _m = event_writes(e)
+            wr |= set(may)
+        rd = R.this_fields_read(g)
+        shared = {w.replace('[]', '') for w in wr} & {p_[5:] for p_ in rd}
+        rep.ob(clause, 'K10 sibling agreement', 'returnTokenChar stores into state that getTokenChar reads first', bool(shared), h.where,
+               'written %s, read %s' % (sorted(wr), sorted(rd)), h.sname)
